@@ -15,6 +15,7 @@ import (
 	"ipchubverif/hx"
 	"ipchubverif/oracle/flvparse"
 	"ipchubverif/report"
+	"ipchubverif/runner"
 	"ipchubverif/vrt"
 )
 
@@ -391,8 +392,11 @@ func errClass(err error) string {
 
 func main() {
 	xlog.ReplaceGlobal(xlog.New(xlog.NewNopCore()))
+	if runner.IsWorker() {
+		runner.RunWorker(append(concurrentScenarios(false), concurrentScenarios(true)...))
+	}
 	rep := report.New("C08", "exploration")
-	rep.Rule = "every frame-kind sequence up to the tier length (H.264: IDR,P,SPS,PPS,SEI,AAC; H.265: IDR,TRAIL,CRA,VPS,SPS,SEI,BLA,reserved-IRAP,AAC) x rotating payload sizes {1..5,255,256,65535,65536,70000} x 7 PTS/DTS profiles (incl. PTS<DTS, CTS 2^23-1, 32-bit ms boundary) x audio lag {0,50ms: an audio frame older than the preceding video frame} x cache_gop on/off x {H.264+AAC, H.264, H.265+AAC}, pushed through the real Stream -> flv.Muxer -> FlvCache -> flv.Writer with a consumer joining after every frame; each byte stream is parsed by an independent FLV/AMF0/avcC/hvcC reader; distinct = distinct (config, frames, timing)"
+	rep.Rule = "every frame-kind sequence up to the tier length (H.264: IDR,P,SPS,PPS,SEI,AAC; H.265: IDR,TRAIL,CRA,VPS,SPS,SEI,BLA,reserved-IRAP,AAC) x rotating payload sizes {1..5,255,256,65535,65536,70000} x 7 PTS/DTS profiles (incl. PTS<DTS, CTS 2^23-1, 32-bit ms boundary) x audio lag {0,50ms: an audio frame older than the preceding video frame} x cache_gop on/off x {H.264+AAC, H.264, H.265+AAC}, pushed through the real Stream -> flv.Muxer -> FlvCache -> flv.Writer with a consumer joining after every frame; each byte stream is parsed by an independent FLV/AMF0/avcC/hvcC reader; plus two clients written to by concurrent delivery goroutines (every schedule within the deviation bound, bytes equal to the solo run); distinct = distinct (config, frames, timing)"
 	rep.Assumptions = []string{"threads scheduled deterministically (default schedule) by the controlled scheduler", "the consumer mirrors httpFlvConsumer/wsFlvConsumer: flv.NewWriter + WriteFlvTag per tag"}
 	maxLen := 3
 	if rep.Thorough() {
@@ -455,5 +459,12 @@ func main() {
 			}
 		}
 	}
+	// two clients written to concurrently (every schedule within the deviation bound, also with
+	// statement-level points in flv/tag.go and flv/flv.go)
+	runner.FineP = 2
+	if rep.Thorough() {
+		runner.FineP = 3
+	}
+	runner.Run(rep, concurrentScenarios(rep.Thorough()))
 	rep.Finish()
 }
